@@ -502,11 +502,13 @@ class Gate(Transformation):
         original_p0 = self.p[0]  # store the original Parameter
         self.p[0] = z
 
-        # convert RegRefs back to indices for the backend API
-        temp = [rr.ind for rr in reg]
-        # call the child class specialized _apply method
-        self._apply(temp, backend, **kwargs)
-        self.p[0] = original_p0  # restore the original Parameter instance
+        try:
+            # convert RegRefs back to indices for the backend API
+            temp = [rr.ind for rr in reg]
+            # call the child class specialized _apply method
+            self._apply(temp, backend, **kwargs)
+        finally:
+            self.p[0] = original_p0  # restore the original Parameter instance
 
     def merge(self, other):
         if not self.__class__ == other.__class__:
